@@ -26,10 +26,16 @@ REPO = Path(os.environ.get('VERIF_REPO', '/repo'))
 
 
 def load_findings():
+    """Known findings: the committed per-property files findings.d/*.json (known_findings.json is their
+    merged copy, written by bin/mkmanifest; never written at run time)."""
+    d = VERIF / 'findings.d'
+    out = []
+    if d.is_dir():
+        for f in sorted(d.glob('*.json')):
+            out += json.loads(f.read_text())
+        return out
     p = VERIF / 'known_findings.json'
-    if not p.exists():
-        return []
-    return json.loads(p.read_text())
+    return json.loads(p.read_text()) if p.exists() else []
 
 
 def sig_matches(sig, obs):
